@@ -19,6 +19,7 @@ SPEC = {
 }
 
 UNIT_CONST = {'day': 1, 'week': 2, 'month': 3, 'year': 4}
+ZONES = sorted(lex.admissible_zones('en')) + ['GMT+5:30', 'GMT-11', 'GMT+13', 'GMT-3:30']
 
 
 def recase(rng, w):
@@ -200,6 +201,51 @@ def run_shard(ctx):
                     continue
                 span_days = {'day': n, 'week': 7 * n}.get(unit)
                 meta.append((lang, text, 'arith:%s:%s' % (unit, '+' if sign > 0 else '-'), ('date', want, d, span_days, sign, unit, n)))
+            elif r < 0.80:
+                # a negative span reaches the date: attached minus sign, a parenthesised difference, or a variable
+                unit = rng.choice(['day', 'day', 'week'])
+                if unit not in words:
+                    continue
+                k = rng.choice(['attached', 'paren', 'variable'])
+                if k == 'attached' and d.year < 100:
+                    continue         # '1 oct 20 -30 days': 'oct 20 -30' is itself a date spelling
+                # ('30 april -2 weeks' would be 30 April of the year -2: a signed number after 'day Month' is the year)
+                text0, form = spell(rng, lang, d, today, force_year=(k == 'attached'))
+                w = rng.choice(words[unit])
+                if k == 'attached':
+                    n = rng.choice([1, 2, 3, 7, 10, 28, 29, 30, 31, 45, 61]) if unit == 'day' else rng.randint(1, 5)
+                    text = '%s -%d %s' % (text0, n, w)
+                    total, osign = n, -1
+                else:
+                    a, b = rng.randint(0, 40), rng.randint(1, 60)
+                    if unit == 'week':
+                        a, b = rng.randint(0, 3), rng.randint(1, 6)
+                    if a >= b:
+                        a, b = b - 1, a + 1
+                    op = rng.choice('+-')
+                    diff = '%d %s - %d %s' % (a, w, b, rng.choice(words[unit]))
+                    if k == 'paren':
+                        text = '%s %s (%s)' % (text0, op, diff)
+                    else:
+                        text = 'zq = %s\n%s %s zq' % (diff, text0, op)
+                    total, osign = (b - a), (-1 if op == '+' else 1)
+                mult = 7 if unit == 'week' else 1
+                try:
+                    want = d + datetime.timedelta(days=osign * total * mult)
+                except OverflowError:
+                    continue
+                meta.append((lang, text, 'negspan:%s:%s' % (k, unit), ('date', want, d, total * mult, osign, unit, total)))
+            elif r < 0.84 and lang == 'en':
+                # 'A to B' where one date was moved to another zone (it is still that calendar day)
+                d2 = gen_date(rng, today)
+                t1, _ = spell(rng, lang, d, today, force_year=True)
+                t2, _ = spell(rng, lang, d2, today, force_year=True)
+                z = rng.choice(ZONES)
+                if rng.random() < 0.5:
+                    text = 'zq = %s to %s\nzq to %s' % (t1, z, t2)
+                else:
+                    text = 'zq = %s to %s\n%s to zq' % (t1, z, t2)
+                meta.append((lang, text, 'to-zoned', ('duration', abs((d2 - d).days) * 86400)))
             elif r < 0.9:
                 d2 = gen_date(rng, today)
                 t1, _ = spell(rng, lang, d, today, force_year=(lang != 'en'))
@@ -226,7 +272,7 @@ def run_shard(ctx):
         items = [(m[0], m[1]) for m in meta]
         rs = mon.run_lines(drv, cfg, items)
         for (lang, text, cls, exp), r in zip(meta, rs):
-            slot = mon.slot0(r)
+            slot = mon.last_slot(r) if '\n' in text else mon.slot0(r)
             res.cases += 1
             res.note_rw(r)
             res.count('class:' + cls.split(':')[0])
